@@ -116,6 +116,7 @@ pub struct State {
     pub exec_count: Vec<u32>,
     pub done: Vec<bool>,
     pub rdv_arrived: usize,
+    pub round_arrived: BTreeMap<u32, usize>,
     pub gate_open: bool,
     pub inside_now: usize,
     pub max_inside: usize,
